@@ -103,6 +103,9 @@ def h4():
         fam = "ext" if ext else "aggr"
         for cfg, kind in ((1, 0), (5, 0), (0x100, 0), (0, 0), (3, 0), (12, 0), (1, 1), (11, 2)) if ext == 0 else ((1, 0), (0x100, 0), (0, 0), (10, 2)):
             insts.append({"label": "%s_cfg%d_k%d" % (fam, cfg, kind), "defines": ["PDU_EXT=%d" % ext, "CFG=%d" % cfg, "REQKIND=%d" % kind]})
+    insts += [{"label": "aggr_login_cfg1", "defines": ["PDU_EXT=0", "CFG=1", "REQKIND=0", "WITH_LOGIN=1"], "unwind": 12},
+              {"label": "ext_login_cfg5", "defines": ["PDU_EXT=1", "CFG=5", "REQKIND=0", "WITH_LOGIN=1"], "unwind": 12},
+              {"label": "aggr_login_cfg0", "defines": ["PDU_EXT=0", "CFG=0", "REQKIND=0", "WITH_LOGIN=1"], "unwind": 12}]
     return {
         "name": "h4_enclose", "src": "h4_enclose.c",
         "defines": ["C06_CAP=80", "C06_SERLEN=72"],
@@ -110,7 +113,7 @@ def h4():
         "tus": ["types_base", "hash"],
         "unwind": 4, "harness_unwind": 90, "object_bits": 10, "timeout": 300, "mem_gb": 8, "leak_check": True,
         "functions": ["KSI_AggregationReq_encloseWithHeader", "KSI_ExtendReq_encloseWithHeader", "KSI_AggregationPdu_updateHmac", "KSI_ExtendPdu_updateHmac",
-                      "KSI_AggregationPdu_calculateHmac", "KSI_ExtendPdu_calculateHmac", "pdu_calculateHmac_v2", "pdu_calculateHmac", "KSI_DataHash_createZero", "KSI_isHashAlgorithmTrusted"],
+                      "KSI_AggregationPdu_calculateHmac", "KSI_ExtendPdu_calculateHmac", "pdu_calculateHmac_v2", "pdu_calculateHmac", "KSI_DataHash_createZero", "KSI_isHashAlgorithmTrusted", "KSI_AggregationReq_enclose", "KSI_ExtendReq_enclose"],
         "bound": "configured HMAC algorithm concrete per instance (SHA2-256, SHA2-512, SHA3-512, SM3, unset 0x100, SHA-1 (deprecated), ids 3 and 12 (undefined)); request with payload, "
                  "with configuration only, with both; symbolic PDU version option, request hash / time, MAC digest, serialized bytes (72), status of serializer and MAC computation",
         "instances": insts,
@@ -186,11 +189,12 @@ def plan():
                         "HMAC is a secure MAC (needed to conclude 'an altered PDU is rejected' from 'the MAC over exactly these bytes is recomputed and compared'): assumed, not checked"],
         "manifest": {
             "claimed": True,
-            "level_text": "Bounded symbolic execution (CBMC) of the real hmac.c, types.c, net.c and net_async.c code. (H1) For every key length in {0,1,..,block+3} x message length 0..8 "
-                          "instance and ALL key/message/digest bytes, KSI_HMAC_create / KSI_HmacHasher_* hash exactly [H(K) iff |K|>block], (K' xor 0x36)||msg, (K' xor 0x5c)||inner digest with the "
+            "level_text": "Bounded symbolic execution (CBMC) of the real hmac.c, types.c, net.c and net_async.c code. (H1) For each enumerated (algorithm, key length, message length) instance - keys of 0, 1, a few, "
+                          "block-1, block, block+1..block+3 bytes, messages of 0..8 bytes - and ALL key/message/digest bytes, KSI_HMAC_create / KSI_HmacHasher_* hash exactly [H(K) iff |K|>block], (K' xor 0x36)||msg, (K' xor 0x5c)||inner digest with the "
                           "requested algorithm (block 64 and 128) and return algorithm id || outer digest. (H2/H4) With KSI_HMAC_create replaced by a capture stub: the MAC input of a v2 PDU is "
                           "exactly its bytes up to the trailing digest (received bytes for parsed PDUs, one serialization with an all-zero MAC of the configured algorithm for built requests), of "
-                          "a v1 PDU header||payload; key, configured algorithm and context are passed through; unset / deprecated / undefined algorithms are refused before anything is produced. "
+                          "a v1 PDU header||payload; key, configured algorithm and context are passed through; unset / deprecated / undefined algorithms are refused before anything is produced; KSI_*Req_enclose puts the login id byte for byte into "
+                          "the header and runs the user's header callback before the MAC is computed. "
                           "(H3) pdu_verifyHmac and KSI_*Pdu_verify accept iff header and MAC are present, the configured algorithm is unset or equals the received one, the recomputation succeeds "
                           "and the imprints agree in every byte including the algorithm id. (H5) In the blocking and asynchronous clients, for every combination of callee outcomes, response and "
                           "configuration payload, the user callback and the handle's respCtx are reached only after that PDU's verification returned OK under the endpoint key; error PDUs deliver nothing.",
